@@ -257,9 +257,16 @@ func (pe *pathEval) evalExpr(f *FuncInfo, e ast.Expr, env map[*types.Var][]ptemp
 			}
 			return res
 		case "path.Join":
+			var elems [][]ptemplate
+			if x.Ellipsis.IsValid() && len(x.Args) == 1 {
+				elems = pe.evalList(f, x.Args[0], env)
+			} else {
+				for _, a := range x.Args {
+					elems = append(elems, pe.evalExpr(f, a, env))
+				}
+			}
 			res := litT("")
-			for i, a := range x.Args {
-				sub := pe.evalExpr(f, a, env)
+			for i, sub := range elems {
 				// strip leading/trailing separators of literal ends (Clean collapses them)
 				var cleaned []ptemplate
 				for _, t := range sub {
@@ -269,10 +276,23 @@ func (pe *pathEval) evalExpr(f *FuncInfo, e ast.Expr, env map[*types.Var][]ptemp
 					}
 					cleaned = append(cleaned, t)
 				}
-				if i > 0 {
-					res = cross(res, litT("/"))
+				// path.Join ignores empty elements: an optional (variadic, possibly empty) element yields both forms
+				optional := len(cleaned) > 0
+				for _, t := range cleaned {
+					if !(len(t) == 1 && t[0].slot >= 0 && t[0].opt) {
+						optional = false
+					}
 				}
-				res = cross(res, cleaned)
+				with := res
+				if i > 0 {
+					with = cross(with, litT("/"))
+				}
+				with = cross(with, cleaned)
+				if optional {
+					res = append(append([]ptemplate{}, res...), with...)
+				} else {
+					res = with
+				}
 			}
 			return res
 		case "strings.Join":
@@ -435,4 +455,71 @@ func parserTable(p *Prog, f *FuncInfo) ([]parserRow, string) {
 		}
 	}
 	return rows, ""
+}
+
+// evalList evaluates a []string-valued expression to its elements: a composite literal, append(list, elems...),
+// append(list, variadic...), or a variadic parameter (one optional element).
+func (pe *pathEval) evalList(f *FuncInfo, e ast.Expr, env map[*types.Var][]ptemplate) [][]ptemplate {
+	info := f.Info()
+	e = ast.Unparen(e)
+	switch x := e.(type) {
+	case *ast.CompositeLit:
+		var out [][]ptemplate
+		for _, el := range x.Elts {
+			out = append(out, pe.evalExpr(f, el, env))
+		}
+		return out
+	case *ast.Ident:
+		if v, ok := info.Uses[x].(*types.Var); ok {
+			if t, ok := env[v]; ok {
+				return [][]ptemplate{t}
+			}
+		}
+	case *ast.CallExpr:
+		if id, ok := ast.Unparen(x.Fun).(*ast.Ident); ok && id.Name == "append" && len(x.Args) >= 1 {
+			out := pe.evalList(f, x.Args[0], env)
+			if x.Ellipsis.IsValid() && len(x.Args) == 2 {
+				return append(out, pe.evalList(f, x.Args[1], env)...)
+			}
+			for _, a := range x.Args[1:] {
+				out = append(out, pe.evalExpr(f, a, env))
+			}
+			return out
+		}
+	}
+	pe.bad("unsupported list expression " + exprString(e))
+	return nil
+}
+
+// instNoOpt instantiates a set of templates for the case where the optional (variadic) parameters are absent:
+// the variant without optional slot if there is one, else the single template with the slot empty.
+func instNoOpt(ts []ptemplate, vals map[int]string) (string, bool) {
+	var plain []ptemplate
+	for _, t := range ts {
+		hasOpt := false
+		for _, p := range t {
+			if p.slot >= 0 && p.opt {
+				hasOpt = true
+			}
+		}
+		if !hasOpt {
+			plain = append(plain, t)
+		}
+	}
+	if len(plain) == 1 {
+		return plain[0].instantiate(vals), true
+	}
+	if len(plain) == 0 && len(ts) == 1 {
+		v2 := map[int]string{}
+		for k, v := range vals {
+			v2[k] = v
+		}
+		for _, p := range ts[0] {
+			if p.slot >= 0 && p.opt {
+				v2[p.slot] = ""
+			}
+		}
+		return ts[0].instantiate(v2), true
+	}
+	return "", false
 }
